@@ -9,8 +9,8 @@ import (
 	"time"
 
 	"github.com/cnotch/ipchub/av/codec"
-	sflv "github.com/cnotch/ipchub/service/flv"
 	"github.com/cnotch/ipchub/media"
+	sflv "github.com/cnotch/ipchub/service/flv"
 	"github.com/cnotch/xlog"
 
 	"verif/harness/oracle"
@@ -24,8 +24,8 @@ func init() {
 		Cfg:          sim.RunConfig{Grace: time.Minute, Horizon: time.Hour, StepCap: 200000},
 		RunsQuick:    8000,
 		RunsThorough: 500000,
-		Real: []string{"flv.Muxer (goroutine) + H264/H265/AAC packetizers + decoder configuration records + AMF0 metadata", "media.Stream.WriteFrame/WriteFlvTag, FlvCache join replay", "service/flv.ConsumeByHTTP + flv.Writer (header, tags, rebasing)", "media delivery goroutines"},
-		Stub: []string{"the HTTP response (recording http.ResponseWriter whose Write is a schedule point)", "frames are injected at media.Stream.WriteFrame (the RTP demuxer is covered by C06)"},
+		Real:         []string{"flv.Muxer (goroutine) + H264/H265/AAC packetizers + decoder configuration records + AMF0 metadata", "media.Stream.WriteFrame/WriteFlvTag, FlvCache join replay", "service/flv.ConsumeByHTTP + flv.Writer (header, tags, rebasing)", "media delivery goroutines"},
+		Stub:         []string{"the HTTP response (recording http.ResponseWriter whose Write is a schedule point)", "frames are injected at media.Stream.WriteFrame (the RTP demuxer is covered by C06)"},
 		Rule: "one run = 6-40 frames (H.264+AAC or H.265; IDR/IRAP, P, SEI, in-band parameter sets; 1 byte..70 KiB; DTS in 40 ms steps from 0, 1e6 s or just below the 2^32 ms boundary; PTS-DTS in {0,+80,-40} ms; " +
 			"audio older than the first video tag), cache_gop on/off, 1-2 HTTP-FLV viewers joining at tape-chosen frames, stream closed at the end or while a viewer is being written to; " +
 			"an independent FLV/AMF0 reader parses what each viewer received. distinct = event-log hash; non-trivial = at least one pre-emption",
